@@ -75,6 +75,28 @@ CHECKS: dict[str, tuple[str, str, str, str]] = {
         "Trusted: ast, sa/tab.py, sa/fold.py.",
         "DESIGN.md §3 C12",
     ),
+    "C04": (
+        "path-sensitive decision/effect tabulation compared cell by cell with the specified precedence table",
+        "The property is a finite table. It is extracted from Project.reuse_info_of over the atoms {global licensing,"
+        " override, binary, file-info, file-copyright, file-licence, closest} with the ordered effect trace (read /"
+        " extend / append) and compared with the specification on every path (joint lazy decision-tree exploration);"
+        " likewise FILE.license shadowing, last-match-wins inside one REUSE.toml, the depth-sorted top-down walk that"
+        " stops at the first override, the closest clean-up as a complete 4-state x 4-element flag machine, dep5 ="
+        " AGGREGATE with named source, and dep5/REUSE.toml exclusivity.",
+        "Trusted: ast, sa/tab.py. ReuseInfo's helper predicates are mapped to formulas here and decided in C09.",
+        "DESIGN.md §3 C04",
+    ),
+    "C20": (
+        "writer-table vs reader-table agreement on folded constants + decision-table tabulation + DFA equivalence of the year language",
+        "For each of the 10 folded prefix styles x 6 year spellings x 4 holder shapes the first matching folded reader"
+        " pattern must report exactly that prefix, year and holder (constants evaluated against constants with the"
+        " standard library's re; no repository code runs); the year group's language equals YYYY | YYYY ?- ?YYYY"
+        " (DFA equivalence); make_copyright_line's decision table and get_year's table equal the specified ones on"
+        " every path; the merge loop produces one notice per parsed statement with min..max over the whole group."
+        " Arbitrary holder strings and year arithmetic on arbitrary sets are not decided.",
+        "Trusted: ast, stdlib re on folded constants, sa/fold.py, sa/tab.py, sa/relang.py.",
+        "DESIGN.md §3 C20",
+    ),
 }
 
 PENDING_REASON = "check not implemented yet (build in progress; see DESIGN.md §7)"
